@@ -103,7 +103,9 @@ func checkHandleAlive(c *Ctx) {
 	}
 	x := c.flow(target, map[string]string{})
 	n := c.flowMay(x, "C18/packet-alive/gated", "alive gossip is handed to the alive handler only if it decoded, its source address passed the connection check and (allow-list active) its advertised address is allowed",
-		func(e *gea.Effect) bool { return e.Class == "CALL:Memberlist.aliveNode" || strings.HasPrefix(e.Class, "CALL:Memberlist.") && e.Class == "CALL:"+hm["alive"].fn.Name },
+		func(e *gea.Effect) bool {
+			return e.Class == "CALL:Memberlist.aliveNode" || strings.HasPrefix(e.Class, "CALL:Memberlist.") && e.Class == "CALL:"+hm["alive"].fn.Name
+		},
 		func(e *gea.Effect) (bool, string) {
 			if v, ok := cubeAtom(e.Cube, "m.ensureCanConnect(", "==nil"); !ok || v != "T" {
 				return false, "source-address check not passed on this path"
